@@ -549,6 +549,52 @@ func runC07(c *Ctx) {
 							}
 						}
 						if !safe {
+							// the amount that reaches the store on this path is a fresh zero / constant, not the lowered value
+							x := ssa.Value(v)
+							for {
+								ph, isPhi := x.(*ssa.Phi)
+								if !isPhi {
+									break
+								}
+								pos := -1
+								for i, b := range blocks {
+									if b == ph.Block() {
+										pos = i
+									}
+								}
+								if pos <= 0 {
+									break
+								}
+								e := -1
+								for i, pb := range ph.Block().Preds {
+									if pb == blocks[pos-1] {
+										e = i
+									}
+								}
+								if e < 0 {
+									break
+								}
+								x = stripConv(ph.Edges[e])
+							}
+							switch y := x.(type) {
+							case *ssa.Alloc:
+								safe = isBigIntPtr(y.Type()) && len(*y.Referrers()) <= 2
+							case *ssa.Call:
+								if o := calleeObj(y); o != nil && o.Pkg() != nil && o.Pkg().Path() == "math/big" {
+									if o.Name() == "NewInt" {
+										if k, isK := y.Call.Args[0].(*ssa.Const); isK && k.Value != nil && constant.Sign(k.Value) >= 0 {
+											safe = true
+										}
+									}
+									if o.Name() == "SetUint64" {
+										if _, isA := stripConv(callRecv(y)).(*ssa.Alloc); isA {
+											safe = true
+										}
+									}
+								}
+							}
+						}
+						if !safe {
 							all = false
 						}
 					})
@@ -562,6 +608,161 @@ func runC07(c *Ctx) {
 		if nRec == 0 {
 			c.Undecided("staking#pending-record-amounts", token.NoPos, "no AddStakingRecord call with a lowered amount found in package staking")
 		}
+	}
+
+	// ------------------------------------------------------------ P14
+	c.Rule("C07.P14", "GATE", "what the end-of-block hook distributes as gas rewards is what the block's transactions paid: StateProcessor.Process reaches EndBlock only on paths on which the accumulator it handed to every ApplyTransaction was compared with header.GasRewards and found equal (sign domain over the Cmp result: only 0 remains). blockRewards reads the figure from the header, so without the gate a proposer mints rewards by writing a larger number (same gate as C06.N3)")
+	c.Min(1)
+	{
+		pr := w.Fn("core", "StateProcessor", "Process")
+		c.sawFunc(fname(pr))
+		c.sites++
+		ok, why := gasRewardsGate(w, pr)
+		c.Check(fname(pr)+"#end-block-only-with-equal-gas-rewards", pr.Pos(), ok, ifelse(ok, "EndBlock is dominated by Cmp(accumulator, header.GasRewards) == 0", why))
+	}
+
+	// ------------------------------------------------------------ P15
+	c.Rule("C07.P15", "ORDER", "the amount that leaves the stake is the amount that enters the withdraw queue: in package staking a negated copy of an amount (new(big.Int).Neg(x), handed to UpdateDelegation as the change of the delegation) is taken after the last in-place change of x — no mutating big.Int call on x is reachable from the negation while the copy is still to be used. teDelegationSub enlarges the withdrawn amount to the whole delegation when the remainder would be below the minimum; a negation taken before that un-stakes the requested amount and queues requested + remainder: tokens are created")
+	c.Min(1)
+	{
+		mut := map[string]bool{"Set": true, "Sub": true, "Add": true, "Mul": true, "Div": true, "Quo": true, "SetUint64": true, "SetInt64": true, "Neg": true, "Lsh": true, "Rsh": true}
+		reach := func(from, to ssa.Instruction) bool {
+			if from.Block() == to.Block() {
+				fi, ti := -1, -1
+				for i, in := range from.Block().Instrs {
+					if in == from {
+						fi = i
+					}
+					if in == to {
+						ti = i
+					}
+				}
+				if fi < ti {
+					return true
+				}
+			}
+			seen := map[*ssa.BasicBlock]bool{}
+			work := append([]*ssa.BasicBlock(nil), from.Block().Succs...)
+			for len(work) > 0 {
+				b := work[len(work)-1]
+				work = work[:len(work)-1]
+				if seen[b] {
+					continue
+				}
+				seen[b] = true
+				if b == to.Block() {
+					return true
+				}
+				work = append(work, b.Succs...)
+			}
+			return false
+		}
+		n := 0
+		for _, fn := range w.FuncsIn("staking") {
+			if fn.Blocks == nil || strings.HasSuffix(w.fileOf(fn.Pos()), "_test.go") {
+				continue
+			}
+			ai := bigIntAliases(fn)
+			k := 0
+			for _, ci := range callInstrs(fn) {
+				neg, ok := ci.(*ssa.Call)
+				if !ok {
+					continue
+				}
+				o := calleeObj(neg)
+				if o == nil || o.Name() != "Neg" || o.Pkg() == nil || o.Pkg().Path() != "math/big" {
+					continue
+				}
+				x := stripConv(callArgs(neg)[0])
+				if r := callRecv(neg); r != nil && ai.class(stripConv(r)) == ai.class(x) {
+					continue // x.Neg(x): not a copy
+				}
+				n++
+				c.sites++
+				c.sawFunc(fname(fn))
+				bad := ""
+				for _, cj := range callInstrs(fn) {
+					m, isCall := cj.(*ssa.Call)
+					if !isCall || m == neg {
+						continue
+					}
+					mo := calleeObj(m)
+					if mo == nil || mo.Pkg() == nil || mo.Pkg().Path() != "math/big" || recvName(mo) != "Int" || !mut[mo.Name()] {
+						continue
+					}
+					r := callRecv(m)
+					if r == nil || ai.class(stripConv(r)) != ai.class(x) || !reach(neg, m) {
+						continue
+					}
+					// is the negated copy still used after the change?
+					for _, u := range *neg.Referrers() {
+						if ui, isI := u.(ssa.Instruction); isI && reach(m, ui) {
+							bad = w.Pos(m.Pos())
+						}
+					}
+				}
+				c.Check(fmt.Sprintf("%s#negation-%d-after-the-last-change", fname(fn), k), neg.Pos(), bad == "", ifelse(bad == "", "the amount is not changed any more once its negation is taken", "the amount is changed in place at "+bad+" after its negation was taken, and the negation is used afterwards: the two sides of the movement (un-staked / queued for withdrawal) differ by that change"))
+				k++
+			}
+		}
+		if n == 0 {
+			c.Undecided("staking#negated-amounts", token.NoPos, "no negated copy of an amount found in package staking (teDelegationSub is expected)")
+		}
+	}
+
+	// ------------------------------------------------------------ P16
+	c.Rule("C07.P16", "GATE", "only an empty record is removed: Validator.IsInvalid — the predicate under which IntermediateRoot deletes a validator record with whatever it holds — answers true only on paths that established that the record's Token is zero (a Sign() / Uint64() test of the Token field). With `Token <= 0 || Stake <= 0` a House validator left with 0.5 YOU (stake 0) is deleted and its tokens are destroyed")
+	c.Min(1)
+	{
+		inv := w.Fn(statePkg, "Validator", "IsInvalid")
+		c.sawFunc(fname(inv))
+		c.sites++
+		bad := 0
+		total := 0
+		complete := enumPaths(inv, 256, func(pr PathResult) {
+			rv := pr.Resolve(pr.Ret.Results[0])
+			facts := pr.Facts
+			if cv, isC := rv.(*ssa.Const); isC && cv.Value != nil && cv.Value.Kind() == constant.Bool {
+				if !constant.BoolVal(cv.Value) {
+					return
+				}
+			} else {
+				facts = append(append([]Fact(nil), facts...), Fact{Cond: rv, Truth: true})
+			}
+			total++
+			atoms := atomsOf(facts)
+			zero := false
+			for _, a := range atoms {
+				for _, v := range []ssa.Value{a.X, a.Y} {
+					if v == nil {
+						continue
+					}
+					cc, isCall := stripConvNoBind(v).(*ssa.Call)
+					if !isCall {
+						continue
+					}
+					o := calleeObj(cc)
+					if o == nil || o.Pkg() == nil || o.Pkg().Path() != "math/big" || !(o.Name() == "Sign" || o.Name() == "Uint64" || o.Name() == "BitLen") {
+						continue
+					}
+					r := callRecv(cc)
+					if r == nil {
+						continue
+					}
+					if f, _ := loadedField(stripConvNoBind(r)); f == nil || f.Name() != "Token" {
+						continue
+					}
+					if al := allowedSigns(atoms, cc); !al[2] {
+						zero = true
+					}
+				}
+			}
+			if !zero {
+				bad++
+			}
+		})
+		ok := complete && total > 0 && bad == 0
+		c.Check(fname(inv)+"#true-only-without-tokens", inv.Pos(), ok, ifelse(ok, fmt.Sprintf("all %d ways of answering true tested Token to be zero", total), fmt.Sprintf("%d of %d ways of answering true do not establish that the record's Token is zero: a record that still holds tokens is deleted at the end of the block", bad, total)))
 	}
 
 	// ------------------------------------------------------------ P13
@@ -603,41 +804,14 @@ func runC07(c *Ctx) {
 		if len(hs) < 5 {
 			c.Undecided("staking.teHandlers", token.NoPos, fmt.Sprintf("only %d take-effect handlers found in the registry", len(hs)))
 		}
-		// pays(fn): fn tests IsInvalid and credits a RewardsDistributable amount
+		// pays(fn): fn tests IsInvalid and credits a RewardsDistributable amount that it takes out of the record
 		pays := func(fn *ssa.Function) bool {
-			if fn == nil || fn.Blocks == nil || len(callsTo(fn, isInv)) == 0 {
+			if fn == nil || fn.Blocks == nil {
 				return false
 			}
-			// what is paid out is taken out of the record: afterwards the field of the replacement record is
-			// re-set and the replacement is stored
-			var zeroes []ssa.Instruction
-			for _, ci := range callInstrs(fn) {
-				o := calleeObj(ci)
-				if o == nil || o.Pkg() == nil || o.Pkg().Path() != "math/big" {
-					continue
-				}
-				switch o.Name() {
-				case "SetUint64", "SetInt64", "Set", "Sub":
-				default:
-					continue
-				}
-				if r := callRecv(ci); r != nil {
-					if f, base := loadedField(stripConvNoBind(r)); f != nil && f.Name() == "RewardsDistributable" && base != nil && types.Identical(deref(base.Type()), valT) {
-						zeroes = append(zeroes, ci.(ssa.Instruction))
-					}
-				}
-			}
-			var stores []ssa.Instruction
-			for _, ci := range callsTo(fn, w.FuncObj(statePkg, "StateDB", "UpdateValidator")) {
-				stores = append(stores, ci.(ssa.Instruction))
-			}
 			for _, ci := range callsTo(fn, addBal) {
-				args := callArgs(ci)
-				f, base := loadedField(stripConvNoBind(args[len(args)-1]))
-				if f != nil && f.Name() == "RewardsDistributable" && base != nil && types.Identical(deref(base.Type()), valT) {
-					if len(zeroes) > 0 && len(stores) > 0 && mustPassAfter(ci.(ssa.Instruction), zeroes) && mustPassAfter(ci.(ssa.Instruction), stores) {
-						return true
-					}
+				if rewardPayoutPaired(w, fn, ci) {
+					return true
 				}
 			}
 			return false
@@ -1087,7 +1261,6 @@ func c07P4(c *Ctx, w *World) {
 		"staking.handleDelegationAdd":                  {map[string]int{"SubBalance": 1}, "debit recorded as pending delegation record; credited/refunded by teDelegationAdd"},
 		"staking.settleValidatorRewards":               {map[string]int{"AddBalance": 4}, "pays out RewardsDistributable, which the replacement record zeroes / reduces to the residue"},
 		"staking.processWithdrawQueue":                 {map[string]int{"AddBalance": 1}, "pays FinalBalance of a withdraw record once (P3)"},
-		"staking.payOutResidueOfEmptyValidator":        {map[string]int{"AddBalance": 1}, "pays out RewardsDistributable of a record that is about to be removed, which the replacement record zeroes (checked by P13)"},
 		"staking.blockRewards":                         {map[string]int{"SubBalance": 1}, "subsidies leave the rewards pool and enter the block's total rewards"},
 		"core.Transfer":                                {map[string]int{"SubBalance": 1, "AddBalance": 1}, "sender debit = recipient credit"},
 		"(core.MessageContext).buyGas":                 {map[string]int{"SubBalance": 1}, "gas bought at GasPrice; refunded by refundGas, the rest becomes gas rewards"},
@@ -1117,6 +1290,12 @@ func c07P4(c *Ctx, w *World) {
 				continue
 			}
 			name := outerName(fname(fn))
+			if _, tabled := table[name]; !tabled && rewardPayoutPaired(w, fn, ci) {
+				// a site that carries its own counterpart: the credited amount is taken out of the record it was read from
+				c.sites++
+				c.Pass(name+"#reward-payout-paired", ci.Pos(), "credits a record's RewardsDistributable, then re-sets that field and stores the record on every path (emptied validator, P13)")
+				continue
+			}
 			if got[name] == nil {
 				got[name] = map[string]int{}
 				pos[name] = ci.Pos()
@@ -1264,6 +1443,8 @@ func c07Variants() []Variant {
 		{Name: "new-mint-site", File: "staking/endblock.go", Old: "	// collect the global residue\n	initStat.GetByKind(params.KindValidator).SetRewardsResidue(residue)", New: "	ctx.db.AddBalance(ctx.header.Coinbase, residue)\n	// collect the global residue\n	initStat.GetByKind(params.KindValidator).SetRewardsResidue(residue)", Rule: "C07.P4", Construct: "rewardsToPool#balance-mutation"},
 		{Name: "subsidy-not-debited", File: "staking/endblock.go", Old: "		db.SubBalance(config.RewardsPoolAddress, subsidies) //from pool\n", New: "", Rule: "C07.P4", Construct: "blockRewards"},
 		{Name: "pending-record-without-floor", File: "staking/delegation_handler.go", Old: "	if totalTokens.Sign() < 0 {", New: "	if totalTokens.Sign() < 0 && deltaTokens.Sign() > 0 {", Rule: "C07.P12", Construct: "checkAndUpdateTotalPendingStakesOfValidator"},
+		{Name: "gas-rewards-compared-loosely", File: "core/state_processor.go", Old: "	if gasRewards.Cmp(header.GasRewards) != 0 {", New: "	if gasRewards.Cmp(header.GasRewards) > 0 {", Rule: "C07.P14", Construct: "Process"},
+		{Name: "residue-of-emptied-validator-kept", File: "staking/take_effect_handler.go", Old: "		db.UpdateValidator(newVal, val)\n	}\n	newVal = payOutResidueOfEmptyValidator(ctx, newVal)\n", New: "		db.UpdateValidator(newVal, val)\n	}\n", Rule: "C07.P13", Construct: "teDelegationSub"},
 	}
 }
 
@@ -1321,4 +1502,48 @@ func allowedSigns(atoms []Atom, call *ssa.Call) [3]bool {
 		}
 	}
 	return al
+}
+
+// rewardPayoutPaired: ci credits (AddBalance) an amount loaded from Validator.RewardsDistributable in a function that
+// tests IsInvalid(), and on every path afterwards that field is re-set in a record and a record is stored with
+// UpdateValidator: what is paid out is taken out of the record.
+func rewardPayoutPaired(w *World, fn *ssa.Function, ci ssa.CallInstruction) bool {
+	valT := w.Named(statePkg, "Validator")
+	if fn == nil || fn.Blocks == nil || len(callsTo(fn, w.FuncObj(statePkg, "Validator", "IsInvalid"))) == 0 {
+		return false
+	}
+	o := calleeObj(ci)
+	if o == nil || o.Name() != "AddBalance" {
+		return false
+	}
+	args := callArgs(ci)
+	f, base := loadedField(stripConvNoBind(args[len(args)-1]))
+	if f == nil || f.Name() != "RewardsDistributable" || base == nil || !types.Identical(deref(base.Type()), valT) {
+		return false
+	}
+	var zeroes, stores []ssa.Instruction
+	for _, cj := range callInstrs(fn) {
+		oj := calleeObj(cj)
+		if oj == nil {
+			continue
+		}
+		if oj == w.FuncObj(statePkg, "StateDB", "UpdateValidator") {
+			stores = append(stores, cj.(ssa.Instruction))
+			continue
+		}
+		if oj.Pkg() == nil || oj.Pkg().Path() != "math/big" {
+			continue
+		}
+		switch oj.Name() {
+		case "SetUint64", "SetInt64", "Set", "Sub":
+		default:
+			continue
+		}
+		if r := callRecv(cj); r != nil {
+			if f, base := loadedField(stripConvNoBind(r)); f != nil && f.Name() == "RewardsDistributable" && base != nil && types.Identical(deref(base.Type()), valT) {
+				zeroes = append(zeroes, cj.(ssa.Instruction))
+			}
+		}
+	}
+	return len(zeroes) > 0 && len(stores) > 0 && mustPassAfter(ci.(ssa.Instruction), zeroes) && mustPassAfter(ci.(ssa.Instruction), stores)
 }
